@@ -398,7 +398,7 @@ struct TaskCtx {
   std::vector<Slot> slots;
   std::vector<void *> owned_strings;    // crypt_gensalt_ra results not yet freed
   const char *last_gensalt_static = nullptr;
-  std::string last_des_out;
+  std::string last_des_out, last_des_in;
   int last_errno = 0;
   std::map<std::string, std::vector<std::string>> null_rbytes_results;  // C12-3
 };
@@ -599,11 +599,6 @@ static void check_fail_closed(Run &r, int t, int i, const HashCall &c, long size
 }
 
 // ---- entropy oracle pieces (C12 / C09-5)
-NOASAN static bool mem_equal_raw(const void *a, const void *b, size_t n) {
-  const unsigned char *x = (const unsigned char *)a, *y = (const unsigned char *)b;
-  for (size_t i = 0; i < n; i++) if (x[i] != y[i]) return false;
-  return true;
-}
 
 struct OpFaultView {
   int injected = 0;            // failures we injected that the library saw
@@ -816,6 +811,7 @@ static void exec_hash(Run &r, int t, int i, const J &op) {
   stat(c.failed ? "calls_failed" : "calls_succeeded");
   stat("op_" + c.kind);
   if (!c.failed) stat("hashed_" + op.str("m", "?"));
+  stat("class_" + op.str("cls", "valid") + (c.failed ? "_failed" : "_succeeded"));   // (a label of the generator: reach statistics only, never a verdict)
   if (c.failed && prior == "success") stat("probe_failure_after_success_same_object");
   if (c.failed && prior == "failure") stat("probe_failure_after_failure_same_object");
   if (!c.failed && prior == "failure") stat("probe_success_after_failure_same_object");
@@ -865,6 +861,23 @@ static void exec_hash(Run &r, int t, int i, const J &op) {
       violation(nullptr, "result", t, i, vfmt("%s(.., %s) returned \"%s\" here but \"%s\" when evaluated alone on a fresh object", c.kind.c_str(), c.setting.b.c_str(), c.res.c_str(), exp.str.c_str()));
     } else if (!c.failed && c.have_out && c.out_str != c.res) {
       violation(nullptr, "result", t, i, vfmt("%s returned \"%s\" but the output field holds \"%s\"", c.kind.c_str(), c.res.c_str(), c.out_str.c_str()));
+    }
+  }
+  // ---------------- a "successful" result must be a hash of the passphrase
+  // A request that cannot produce a hash must fail (C05).  One way not to produce a hash while looking successful is to
+  // return the setting, or a prefix of it, without a digest (finding F1 did that for long salts): such a string is the
+  // same for every passphrase.  Sampled: every call with an unusual setting, one in eight ordinary ones.
+  if (r.o_c05 && !c.failed && !must_fail && !phrase_in_output && !args_in_slot_block && !aliased && exp.ok && c.res == exp.str && !c.phrase.null) {
+    uint64_t h = 1469598103934665603ULL; for (unsigned char ch : c.phrase.b + "|" + c.setting.b) h = (h ^ ch) * 1099511628211ULL;
+    if (op.str("cls") != "valid" || (h >> 17) % 8 == 0) {
+      std::string ph2 = c.phrase.b;
+      if (ph2.empty()) ph2 = "x"; else { ph2[0] = (char)(ph2[0] ^ 1); if (!ph2[0]) ph2[0] = 3; }
+      RefOut e2 = RefClient::get().hash(Bytes(ph2), c.setting);
+      if (e2.bad) crash_exit("machinery", ("refsrv: " + e2.raw).c_str());
+      stat("probe_passphrase_dependence_checks");
+      if (e2.ok && e2.str == c.res)
+        violation(nullptr, "not-a-hash", t, i, vfmt("%s(.., %s) returned \"%s\" - and returns the very same string for a passphrase that differs in its first byte: the request did not produce a hash, yet it did not fail",
+                                                    c.kind.c_str(), c.setting.b.c_str(), c.res.c_str()));
     }
   }
   // ---------------- fail-closed
@@ -974,6 +987,7 @@ static void exec_gensalt(Run &r, int t, int i, const J &op) {
   Bytes prefix = Bytes::from_json(op.at("pf")), rb = Bytes::from_json(op.at("rb"));
   unsigned long count = (unsigned long)op.i("count");
   int nrb = op.has("nrb") ? (int)op.i("nrb") : (int)rb.b.size();
+  if (!rb.null && nrb > (int)rb.b.size()) crash_exit("machinery", "plan offers more random bytes than its buffer holds (a caller error, never a plan)");
   int osz = kind == "gensalt_rn" ? (int)op.i("osz", CRYPT_GENSALT_OUTPUT_SIZE) : CRYPT_GENSALT_OUTPUT_SIZE;
   char *outbuf = nullptr;
   if (kind == "gensalt_rn") { outbuf = (char *)malloc((size_t)(osz > 0 ? osz : 1)); garbage_fill(outbuf, (size_t)(osz > 0 ? osz : 1), 5); thr::region_add(outbuf, (size_t)(osz > 0 ? osz : 1), t, "gensalt-out"); }
@@ -984,6 +998,7 @@ static void exec_gensalt(Run &r, int t, int i, const J &op) {
   EntropyDev::get().begin_op(t);
 #ifdef SIM_RNG
   g_rngdev.script[t].clear();
+  g_rngdev.fired_in_op[t] = 0; g_rngdev.grb_calls[t] = g_rngdev.grb_ok[t] = 0;
   bool scripted = false;
   for (auto &kv : op.at("script").o) { for (auto &o : kv.second.a) { g_rngdev.script[t][kv.first].push_back(o.s); scripted = true; } }
 #endif
@@ -992,12 +1007,21 @@ static void exec_gensalt(Run &r, int t, int i, const J &op) {
   char *ret = nullptr; int err = 0;
   int fds_before = count_open_fds();
   thr::api_boundary(t, i, true);
-  DeepRange dr = deepcall(t, [&]() {
+  // whether the latest draw is still where the library put it is looked at right after the library returns, before any
+  // other frame of the harness can overwrite (or, worse, re-create) the dead stack it lived in: plain loads, no calls
+  const EntropyDev::Last *ld = &EntropyDev::get().last[t];
+  bool drawn_still_there = false;
+  DeepRange dr = deepcall(t, [&]() __attribute__((no_sanitize("address"))) {
     errno = (int)op.i("errno0", 0);
     if (kind == "gensalt") ret = _crypt_crypt_gensalt(prefix.cstr(), count, rb.cstr(), nrb);
     else if (kind == "gensalt_rn") ret = _crypt_crypt_gensalt_rn(prefix.cstr(), count, rb.cstr(), nrb, outbuf, osz);
     else ret = _crypt_crypt_gensalt_ra(prefix.cstr(), count, rb.cstr(), nrb);
     err = errno;
+    if (ld->n >= 4) {
+      const volatile unsigned char *x = (const volatile unsigned char *)ld->buf; bool eq = true, allz = true;
+      for (size_t q = 0; q < ld->n; q++) { if (x[q] != ld->bytes[q]) eq = false; if (ld->bytes[q]) allz = false; }
+      drawn_still_there = eq && !allz;
+    }
   }, VARIANT[0] == 'O');
   thr::api_boundary(t, i, false);
   (void)dr;
@@ -1017,7 +1041,25 @@ static void exec_gensalt(Run &r, int t, int i, const J &op) {
   if (fv.effective > 0) { exp_fail = true; have_exp = true; }
   else if (!rb.null) { exp = RefClient::get().gensalt(prefix, count, rb, nrb, osz); have_exp = true; }
   else if (draws.empty()) { exp_fail = true; have_exp = true; }   // auto-entropy requested, nothing drawn: only failure is legitimate
-  else if (draws.size() == 1) { exp = RefClient::get().gensalt(prefix, count, Bytes(draws.back().bytes), (int)draws.back().bytes.size(), osz); have_exp = true; }
+  else if (draws.size() == 1) {
+    exp = RefClient::get().gensalt(prefix, count, Bytes(draws.back().bytes), (int)draws.back().bytes.size(), osz); have_exp = true;
+    if (!exp.bad && !failed && !(exp.ok && exp.str == res)) {
+      // The call may draw more than it hands to the method (a pool, a request rounded up): the clause says where the
+      // salt's bytes come from, not that every drawn byte is used.  Accept the salt of any leading or trailing part of
+      // the draw that is at least as long as hashes.conf asks for.  (Only reached when the plain expectation fails.)
+      const HashConf *hc0 = prefix.null ? nullptr : conf_for_prefix(prefix.b);
+      const std::string &all = draws.back().bytes; size_t lo = hc0 && hc0->nrbytes > 0 ? (size_t)hc0->nrbytes : 1;
+      stat("incidental_salt_from_part_of_the_draw_searches");
+      bool found = false;
+      for (int side = 0; side < 2 && !found; side++)
+        for (size_t L = all.size() - 1; L >= lo && L < all.size() && !found; L--) {
+          std::string part = side == 0 ? all.substr(0, L) : all.substr(all.size() - L);
+          RefOut e2 = RefClient::get().gensalt(prefix, count, Bytes(part), (int)L, osz);
+          if (e2.bad) crash_exit("machinery", "refsrv");
+          if (e2.ok && e2.str == res) { exp = e2; found = true; stat("incidental_salt_from_part_of_the_draw"); }
+        }
+    }
+  }
   else {
     // several complete draws in one call: legal (the statement only says where the bytes come from).  The salt must
     // then be derived from one of them or from their concatenation; otherwise we have no expectation.
@@ -1034,6 +1076,13 @@ static void exec_gensalt(Run &r, int t, int i, const J &op) {
       // flag after close(); if another thread's read failed meanwhile, this thread discards its own complete draw and
       // fails.  That is fail-closed - no salt from bad bytes - and so no violation of the clause; counted only.
       stat("incidental_complete_draw_discarded_under_concurrency");
+#ifdef SIM_RNG
+    } else if (failed && !exp_fail && rb.null && g_rngdev.fired_in_op[t] > 0) {
+      // A primitive failed during this very call (for instance close() after a complete read) and the call then
+      // failed although another primitive delivered completely: stricter than necessary, but fail-closed - the
+      // clause says where a salt's bytes must come from, not that a draw must be used.  Counted only.
+      stat("incidental_complete_draw_discarded_after_fault_in_same_call");
+#endif
     } else if (exp_fail != failed) {
       if (rb.null && draws.empty() && !failed)
         violation(nullptr, "salt-without-os-entropy", t, i, vfmt("%s(rbytes=NULL) returned \"%s\" without drawing from the OS entropy source", kind.c_str(), res.c_str()));
@@ -1090,11 +1139,18 @@ static void exec_gensalt(Run &r, int t, int i, const J &op) {
   }
 #endif
   // C09-5 / C12-7: the drawn bytes are wiped from the library's buffer after a successful draw
-  if (rb.null && (r.o_c09 || r.o_c12) && !draws.empty() && draws.back().bytes.size() >= 4) {
+  // (a failing call is judged only if get_random_bytes itself reported success: when the helper reports failure after
+  // a complete delivery - another thread's failure, a failing close() - crypt_gensalt_rn leaves at once, and what it
+  // leaves behind was never "the random bytes it drew" for any salt; the unchanged tree does exactly that)
+  bool grb_reported_success = true;
+#ifdef SIM_RNG
+  grb_reported_success = g_rngdev.grb_ok[t] > 0 && g_rngdev.grb_ok[t] == g_rngdev.grb_calls[t];
+#endif
+  if (rb.null && (r.o_c09 || r.o_c12) && !draws.empty() && draws.back().bytes.size() >= 4 && (!failed || grb_reported_success)) {
     if (failed) stat("probe_entropy_wipe_checks_failing_call");
     const EntropyDraw &d = draws.back();
     stat("probe_entropy_wipe_checks");
-    if (!all_zero(d.bytes.data(), d.bytes.size()) && mem_equal_raw(d.buf, d.bytes.data(), d.bytes.size()))
+    if (drawn_still_there)
       violation(nullptr, "entropy-not-erased", t, i, vfmt("the %zu random bytes drawn for %s are still in the library's buffer after it returned", d.bytes.size(), kind.c_str()));
   }
   // allocation protocol of crypt_gensalt_ra
@@ -1152,6 +1208,9 @@ static void exec_des(Run &r, int t, int i, const J &op) {
   stat("op_" + kind);
   if (kind == "setkey" || kind == "setkey_r") {
     std::string key; hexdec(op.str("key"), key); key.resize(64);
+    // the session-key idiom: the new key is what the previous encrypt produced (1) or was given (2), noise bits redrawn
+    if (op.i("keychain") == 1 && tc.last_des_out.size() == 64) { key = tc.last_des_out; for (auto &ch : key) ch = (char)((ch & 1) | (op.i("keynoise", 0) & 0xfe)); stat("probe_des_key_is_previous_output"); }
+    if (op.i("keychain") == 2 && tc.last_des_in.size() == 64) { key = tc.last_des_in; for (auto &ch : key) ch = (char)((ch & 1) | (op.i("keynoise", 0) & 0xfe)); stat("probe_des_key_is_previous_input"); }
     DataObj *obj = kind == "setkey_r" ? &tc.objs.at((size_t)op.i("obj")) : nullptr;
     std::vector<char> kb(key.begin(), key.end());
     thr::region_add(kb.data(), 64, t, "des-key-vector");
@@ -1180,7 +1239,7 @@ static void exec_des(Run &r, int t, int i, const J &op) {
     thr::api_boundary(t, i, false);
     thr::region_del(bb.data());
     std::string out(bb.begin(), bb.end());
-    tc.last_des_out = out;
+    tc.last_des_out = out; tc.last_des_in = blk;
     record_result(r, t, i, kind + " -> " + hexenc(out));
     int ks = obj ? obj->key_state : r.skey_state;
     const unsigned char *key = obj ? obj->key : r.skey;
@@ -1285,8 +1344,17 @@ static void exec_prim(Run &r, int t, int i, const J &op) {
     // The statement promises context erasure for the primitives; what a *direct* primitive call leaves on
     // its stack is not part of it (the stack clause is about hashing calls).  Counted, never a verdict:
     // on the unchanged tree SHA512_Transform's W[80], gost_hash256 and gost_hmac256 do leave such copies.
+    // The one-shot primitives (hmac_sha1_process_data, HMAC_SHA256_Buf, PBKDF2_SHA256, SHA256_Buf) are different:
+    // their contexts are locals of the primitive itself, finalised before it returns, so the only place where "erased
+    // when finalised" can be observed at all is that stack - and a context that was not erased still holds the tail of
+    // the message (or the padded key) in its block buffer.  The unchanged tree leaves nothing there.
     size_t off; const char *enc = pat.scan(dr.lo, (size_t)(dr.hi - dr.lo), &off);
-    if (enc) stat(std::string("incidental_prim_stack_residue_") + prim_name(alg));
+    bool owns_ctx = alg == 6 || alg == 7 || alg == 8 || alg == 11;
+    if (owns_ctx) stat("probe_one_shot_primitive_stack_scans");
+    if (enc && owns_ctx)
+      violation(nullptr, "context-not-erased", t, i, vfmt("%s: its internal context (or another copy of the %s) is still on the stack after it returned (%s, %zu bytes below the caller's frame)",
+                                                          prim_name(alg), op.str("secret", "msg").c_str(), enc, (size_t)(dr.hi - dr.lo) - off));
+    else if (enc) stat(std::string("incidental_prim_stack_residue_") + prim_name(alg));
 #endif
   }
   (void)dr;
@@ -1340,11 +1408,12 @@ static RunOut run_plan(const J &plan, uint64_t fill_override, bool use_override)
 
   MemEnv env; env.fill_seed = use_override ? fill_override : (uint64_t)plan.at("env").i("fill_seed", 1);
   env.realloc_move = plan.at("env").i("realloc_move", 1) != 0;
+  env.map_limit = (size_t)plan.at("env").i("map_limit_mib", 0) << 20;
   MemLayer &ml = MemLayer::get();
   ml.begin_run(env);
   EntropyDev::get().begin_run((uint64_t)plan.at("env").i("entropy_seed", (long long)g_run_seed));
 #ifdef SIM_RNG
-  g_rngdev = RngDev(); g_rngdev.variant = (int)plan.i("rng_variant", 0);
+  g_rngdev = RngDev(); g_rngdev.variant = (int)plan.i("rng_variant", 0); g_rngdev.fd_base = (int)plan.i("fd_base", 1000);
 #endif
   g_release_hook = on_release;
   ev(vfmt("run prop=%s seed=%llu tasks=%d", p.c_str(), (unsigned long long)g_run_seed, r.ntasks));
